@@ -1,6 +1,7 @@
 (* C07: constants render as inert, exact literals.  Theorems only. *)
 From Coq Require Import NArith List Bool.
-From MSV Require Import Lib.PyStr Spec.Literal Model.Literal Proofs.LiteralProofs.
+From Coq Require Import ZArith.
+From MSV Require Import Lib.PyStr Spec.Literal Model.Literal Proofs.LiteralProofs Model.IntLit Proofs.IntLitProofs.
 Import ListNotations.
 Local Open Scope N_scope.
 
@@ -36,3 +37,10 @@ Print Assumptions C07_tostring_inert_guarded.
 Theorem C07_tostring_inert_refuted :
   exists v rest, not_quote_next rest /\ scan_bs (render_ts v ++ rest) <> Some (v, rest).
 Proof. exact ts_inert_refuted. Qed.
+
+(* Integer constants: every output path writes Python's str(value) (Model/IntLit.print_int; tied per run by Gen/C07_int.v) and the
+   library's INTEGER rule with int() reads decimal digits (read_int): the literal is read back as exactly the value, for every
+   integer of any size and sign. *)
+Theorem C07_integer_literal_exact : forall z : Z, read_int (print_int z) = Some z.
+Proof. exact read_print_int. Qed.
+Print Assumptions C07_integer_literal_exact.
